@@ -233,6 +233,22 @@ let o_spec which tbl o t = match Stdlib.Hashtbl.find_opt tbl (vop_name o ^ ":" ^
   | Some _ -> failwith "driver: spec entry"
   | None -> raise (Miss (L [A which; svop o; sstr t]))
 
+(* ---- typed marker syntax ---- *)
+let rec mast (x : sexp) : Sem508.mast =
+  match x with
+  | L [A "e"; e] -> Sem508.AExpr (Some (mexpr e))
+  | L [A "none"] -> Sem508.AExpr None
+  | L [A "and"; a; b] -> Sem508.AAnd (mast a, mast b)
+  | L [A "or"; a; b] -> Sem508.AOr (mast a, mast b)
+  | _ -> failwith "driver: marker syntax expected"
+let penv_ (rels : sexp) (strs_ : sexp) (extras : sexp) : Sem508.penv =
+  let rt = match rels with L l -> Stdlib.List.map (function L [k; r] -> (num k, nlist r) | _ -> failwith "driver: penv") l | _ -> failwith "driver: penv" in
+  let st = match strs_ with L l -> Stdlib.List.map (function L [k; s] -> (num k, str s) | _ -> failwith "driver: penv") l | _ -> failwith "driver: penv" in
+  let rec find k = function [] -> None | (k', v) :: r -> if n_eq k k' then Some v else find k r in
+  { Sem508.pe_release = (fun k -> match find k rt with Some v -> v | None -> failwith "driver: penv lacks a version key");
+    Sem508.pe_string = (fun k -> match find k st with Some v -> v | None -> failwith "driver: penv lacks a string key");
+    Sem508.pe_extras = strs extras }
+
 (* ---- dispatch ---- *)
 let run (cmd : sexp) : sexp =
   match cmd with
@@ -276,6 +292,10 @@ let run (cmd : sexp) : sexp =
          | MarkerParse.POk (e, w) -> L [A "ok"; (match e with Some e -> smexpr e | None -> A "none"); L (Stdlib.List.map (fun k -> A (wkind_s k)) w)]
          | MarkerParse.PErr e -> L [A "err"; ekind_s e.MarkerParse.e_kind; an e.MarkerParse.e_start; an e.MarkerParse.e_len])
       with Miss m -> L [A "oracle-miss"; m])
+  | L [A "sem508"; pv; pfv; rels; ss; ex; a] ->
+      let e = penv_ rels ss ex in
+      let t = Sem508.compile (num pv) (num pfv) (mast a) in
+      L [bool_ (Sem508.sem508 (num pv) (num pfv) e (mast a)); bool_ (Concrete.m_eval (Sem508.env_of_penv e) e.Sem508.pe_extras t); stree t]
   | L [A "valcmp"; a; b] -> scmp (Concrete.m_val_cmp (value a) (value b))
   | L [A "varcmp"; a; b] -> scmp (Concrete.m_var_cmp (var_ a) (var_ b))
   | L [A "substring"; a; b] -> bool_ (Concrete.substring (str a) (str b))
